@@ -3,7 +3,7 @@
 # Rebuilds the driver and (inside it) the worker binary from /repo's current working tree.
 set -u
 HERE="$(cd "$(dirname "$0")" && pwd)"
-export VERIF_ROOT="$HERE"
+export VERIF_ROOT="${VERIF_ROOT:-$HERE}"
 export GOFLAGS=-mod=mod GOPROXY=off GOSUMDB=off GOTOOLCHAIN=local
 GO=/opt/veriftools/go1.26.8/bin/go
 [ -x "$GO" ] || GO=go1.26.8
